@@ -13,6 +13,17 @@ CLAIMED = {
     note="Trusted: Coq kernel + vm_compute; regex translator (tr_expand); ExtrOcamlBasic extraction + OCaml/C drivers; libc string semantics as modelled in Lib/CStr.v; "
          "data sources other than the six deterministic ones enter only through the contract len(out) < size.",
     technique="Coq proof over regenerated constants + extracted-model differential correspondence"),
+
+ "C01": dict(
+    text="Coq theorems over the exec wrappers' bodies regenerated from clang's AST on every run (T2): for every world, every behaviour of "
+         "every callee and of the real function, the wrapper calls the real execv/execve exactly once, last, with its own parameters, and returns its result "
+         "(C01_execve_once_last, C01_execv_once_last); the library's whole external call set and every indirect call site are regenerated (nm -u, AST) and "
+         "proved free of exec-family, non-returning and unknown indirect calls. Tied and searched by a system-level correspondence: production libsnoopy.so from the "
+         "working tree preloaded into a scripted caller with a recording 'real exec' behind it (pointer identity, deep content, ret/errno, call count, nothing written after return).",
+    ref="DESIGN.md section 7 C01",
+    note="Trusted: Coq kernel + vm_compute; vlib/skel.py (clang AST -> skeleton); nm; harness (tool_caller, librecorder). The skeleton semantics treats named callees as arbitrary "
+         "returning state transformers that receive parameters by value; write-through via the stored pointers is covered by const-qualification check + deep-content comparison only.",
+    technique="Coq proof over clang-AST-regenerated wrapper skeletons + recorder-based system-level correspondence"),
 }
 
 PENDING_REASON = "not claimed yet: the Coq model and its tie for this property are not built at this commit (planned, see DESIGN.md section 12)"
